@@ -266,7 +266,8 @@ def expand_ghost(text, unit, cname):
 
 
 def ghost_requires(unit, f):
-    return ''.join('__CPROVER_requires(%s == (%s))\n' % (ghost_name(n, f.cname), subst(e, f)) for ct, n, e in unit.ghost)
+    # (a ghost with expression None is only declared; the contract binds it itself in a requires clause)
+    return ''.join('__CPROVER_requires(%s == (%s))\n' % (ghost_name(n, f.cname), subst(e, f)) for ct, n, e in unit.ghost if e is not None)
 
 
 def ghost_decls(unit, cname):
@@ -277,6 +278,8 @@ def ghost_bind(unit, cname):
     """bind text in terms of $A0.. (call arguments)"""
     out = []
     for ct, n, e in unit.ghost:
+        if e is None:
+            continue
         ee = re.sub(r'\$this', '$A0', e)
         ee = re.sub(r'\$(\d+)', lambda m: '$A%s' % m.group(1), ee)
         out.append('%s = %s;' % (ghost_name(n, cname), ee))
@@ -531,6 +534,8 @@ def default_harness(unit, tf):
         call = '%s r = %s' % (tf.ret, call)
     lines.append('  g_exc = 0;')
     for ct, n, e in unit.ghost:
+        if e is None:
+            continue      # bound by the contract's own requires clause (the ghost is an unconstrained static)
         ee = e.replace('$this', '(%s)' % args[0])
         ee = re.sub(r'\$(\d+)', lambda m: '(%s)' % args[int(m.group(1))], ee)
         lines.append('  %s = %s;' % (ghost_name(n, tf.cname), ee))
